@@ -773,7 +773,7 @@ impl<'a> Run<'a> {
             }
             // C13 B: bounded work per call
             let g = x.max_groups.max(1) as u64;
-            let bound = BUDGET * (2 * g + 1) * (x.events_in_call + 2);
+            let bound = WORK_UNIT * (2 * g + 1) * (x.events_in_call + 2);
             if x.child_polls_in_call > bound {
                 let (cp, ev) = (x.child_polls_in_call, x.events_in_call);
                 x.violate(
@@ -1331,7 +1331,9 @@ impl<'a> Run<'a> {
         if held >= 2 {
             w(|x| x.labels |= lb::SETTLED);
         }
-        let bound = held + 2 + (v + BUDGET - 1) / BUDGET;
+        // every call that stops early (and wakes its task) has consumed at least one stale queue entry, whatever
+        // the crate's per-call budget is
+        let bound = held + 2 + v;
         let mut spins = 0u64;
         let mut guard = 0u64;
         loop {
